@@ -1,7 +1,8 @@
 (* C01 — the returned circulation solves the general numerical lifting-line equation, or an error is raised.
    Statements only.  Models: Model/Kernel.v, Model/Residual.v, Model/ErrPolicy.v. *)
 From Coq Require Import Reals Lra List Lia Bool.
-From MuxV Require Import Base.Num Base.Vec3 Base.RInst Model.Kernel Model.Residual Model.ErrPolicy Model.Helpers Model.Flow Proofs.ResidualP Proofs.FlowP.
+From Coquelicot Require Import Coquelicot.
+From MuxV Require Import Base.Num Base.Vec3 Base.RInst Model.Kernel Model.Residual Model.ErrPolicy Model.Helpers Model.Flow Proofs.ResidualP Proofs.FlowP Proofs.BiotSavartP.
 Import ListNotations.
 Local Open Scope R_scope.
 
@@ -122,3 +123,19 @@ Proof.
   intros. split; [apply v_inf_and_rot_spec|]. split; [apply trailing_is_unit | apply constrained_in_body_plane].
 Qed.
 Print Assumptions C01_flow_at_points.
+
+(* ---- the influence of a straight vortex segment A -> B (bound segment, joint segments) that the code evaluates in closed form is the
+   Biot-Savart line integral over the segment: with ra = PC - A, rb = PC - B, dl = (B - A) dt and rho(t) the vector from the point
+   A + t (B - A) to the control point, each component of int_0^1 dl x rho / |rho|^3 equals that component of
+   (|ra|+|rb|) (ra x rb) / (|ra||rb| (|ra||rb| + ra.rb)), whenever the control point is not on the line through A and B.
+   (The semi-infinite trailing filaments - the limit of this formula as B goes to infinity along u - are not proved.) ---- *)
+Theorem C01_segment_is_biot_savart : forall ra rb : v3 R, vnorm2 (vcross ra rb) <> 0 ->
+  let integrand := fun t => vscale (/ (vnorm2 (rho ra rb t) * sqrt (vnorm2 (rho ra rb t)))) (vcross (vsub ra rb) (rho ra rb t)) in
+  is_RInt (fun t => vx (integrand t)) 0 1 (vx (seg_kernel ra rb)) /\
+  is_RInt (fun t => vy (integrand t)) 0 1 (vy (seg_kernel ra rb)) /\
+  is_RInt (fun t => vz (integrand t)) 0 1 (vz (seg_kernel ra rb)).
+Proof.
+  intros ra rb H integrand. unfold integrand.
+  split; [|split]; apply (seg_kernel_is_biot_savart ra rb H); intros k [x y z]; reflexivity.
+Qed.
+Print Assumptions C01_segment_is_biot_savart.
